@@ -307,3 +307,36 @@ class _:
     }
     raises = {}
     modifies = ["@content(self._blocks)", "@content(self._entries_by_key)", "@content(self._strings_by_key)"]
+
+
+@contract(L + "add#list-quiet")
+class _:
+    """Library(blocks=...): the constructor's call, fail_on_duplicate_key False -> nothing is raised"""
+    for_callers = ["bibtexparser.library.Library.__init__"]
+    sorts = {"self": "ref:Library", "blocks": "list:ref:Block", "fail_on_duplicate_key": "bool"}
+    requires = {"wf": "WF(self)", "not-own-list": "not same(blocks, self._blocks)", "quiet": "not fail_on_duplicate_key"}
+    assumes = {"A-EQ": EQ_CONTRACT}
+    locals = {"_added_blocks": "list:ref:Block", "duplicate_keys": "list:str"}
+    loops = {1: dict(ADD_LOOPS[1], invariant=dict(ADD_LOOPS[1]["invariant"], **{"arg-unchanged": "len(blks) == old(len(blks)) and forall(t, 0 <= t < len(blks), same(blks[t], old(blks[t])))"})), 2: dict(ADD_LOOPS[2])}
+    ensures = {
+        "C08.add-position": "same(self._blocks, old(self._blocks)) and len(self._blocks) == old(len(self._blocks)) + len(blocks) and forall(i, 0 <= i < old(len(self._blocks)), same(self._blocks[i], old(self._blocks[i])))",
+        "C08.add-elements": "forall(t, 0 <= t < len(blocks), same(self._blocks[old(len(self._blocks)) + t], blocks[t]) or (cls_is(self._blocks[old(len(self._blocks)) + t], 'DuplicateBlockKeyBlock') and fresh(self._blocks[old(len(self._blocks)) + t]) and same(as_ref(self._blocks[old(len(self._blocks)) + t], 'ref:DuplicateBlockKeyBlock')._ignore_error_block, blocks[t])))",
+        "C08.wf-held": "held_indexed(self)", "C08.wf-typed": "index_typed(self)", "C08.wf-once": "keyed_once(self)",
+    }
+    raises = {}
+    modifies = ["@content(self._blocks)", "@content(self._entries_by_key)", "@content(self._strings_by_key)"]
+
+
+@contract(L + "__init__#blocks")
+class _:
+    """Library(blocks): a well-formed library holding one block per given block, in order (an Entry / String whose key
+    is already taken by an earlier one comes wrapped); the given list and blocks are not modified"""
+    sorts = {"self": "ref:Library", "blocks": "list:ref:Block"}
+    requires = {"blocks-exist": "forall(i, 0 <= i < len(blocks), allocated(blocks[i])) and allocated(blocks)"}
+    ensures = {
+        "C08.init-blocks": "fresh(self._blocks) and fresh(self._entries_by_key) and fresh(self._strings_by_key) and len(self._blocks) == len(blocks)",
+        "C08.init-elements": "forall(t, 0 <= t < len(blocks), same(self._blocks[t], blocks[t]) or (cls_is(self._blocks[t], 'DuplicateBlockKeyBlock') and fresh(self._blocks[t]) and same(as_ref(self._blocks[t], 'ref:DuplicateBlockKeyBlock')._ignore_error_block, blocks[t])))",
+        "C08.wf-held": "held_indexed(self)", "C08.wf-typed": "index_typed(self)", "C08.wf-once": "keyed_once(self)",
+    }
+    raises = {}
+    modifies = ["@self._blocks", "@self._entries_by_key", "@self._strings_by_key"]
